@@ -1,3 +1,282 @@
-import Rtcp.Lemmas.Safe6
+/-
+  C15 — XR report blocks are self-delimiting; unknown blocks survive verbatim.
+  The block codec is the generic reflective codec run over the struct layouts regenerated from /repo
+  (Gen/Layouts.lean); `layouts_rfc` pins those layouts to RFC 3611's field tables, so reordering, retagging or
+  retyping a struct field breaks that theorem directly.
+  Known finding KF-XR-ALIGN: a block whose wire size is not a multiple of 4 (odd RLE chunk count, unaligned unknown
+  bytes) is emitted unaligned with a truncated block length — the theorems carry `Aligned`.
+-/
+import Rtcp.Lemmas.XRCodec
+import Rtcp.Lemmas.RT1
 namespace Rtcp.C15
+open Rtcp Gen Out
+set_option linter.unusedSimpArgs false
+set_option linter.unusedVariables false
+
+/-! ### the regenerated layouts are RFC 3611's -/
+
+/-- RFC 3611 §4.1–4.7 field tables (widths in octets, after the common 4-octet block header) -/
+def rfcLayout : Nat → List Item
+  | 1 | 2 => [.scalar "BlockType" 1, .scalar "TypeSpecific" 1, .scalar "BlockLength" 2, .omitted "T",
+              .scalar "SSRC" 4, .scalar "BeginSeq" 2, .scalar "EndSeq" 2, .sliceOf "Chunks" [2]]
+  | 3 => [.scalar "BlockType" 1, .scalar "TypeSpecific" 1, .scalar "BlockLength" 2, .omitted "T",
+          .scalar "SSRC" 4, .scalar "BeginSeq" 2, .scalar "EndSeq" 2, .sliceOf "ReceiptTime" [4]]
+  | 4 => [.scalar "BlockType" 1, .scalar "TypeSpecific" 1, .scalar "BlockLength" 2, .scalar "NTPTimestamp" 8]
+  | 5 => [.scalar "BlockType" 1, .scalar "TypeSpecific" 1, .scalar "BlockLength" 2, .sliceOf "Reports" [4, 4, 4]]
+  | 6 => [.scalar "BlockType" 1, .scalar "TypeSpecific" 1, .scalar "BlockLength" 2,
+          .omitted "LossReports", .omitted "DuplicateReports", .omitted "JitterReports", .omitted "TTLorHopLimit",
+          .scalar "SSRC" 4, .scalar "BeginSeq" 2, .scalar "EndSeq" 2, .scalar "LostPackets" 4, .scalar "DupPackets" 4,
+          .scalar "MinJitter" 4, .scalar "MaxJitter" 4, .scalar "MeanJitter" 4, .scalar "DevJitter" 4,
+          .scalar "MinTTLOrHL" 1, .scalar "MaxTTLOrHL" 1, .scalar "MeanTTLOrHL" 1, .scalar "DevTTLOrHL" 1]
+  | 7 => [.scalar "BlockType" 1, .scalar "TypeSpecific" 1, .scalar "BlockLength" 2, .scalar "SSRC" 4,
+          .scalar "LossRate" 1, .scalar "DiscardRate" 1, .scalar "BurstDensity" 1, .scalar "GapDensity" 1,
+          .scalar "BurstDuration" 2, .scalar "GapDuration" 2, .scalar "RoundTripDelay" 2, .scalar "EndSystemDelay" 2,
+          .scalar "SignalLevel" 1, .scalar "NoiseLevel" 1, .scalar "RERL" 1, .scalar "Gmin" 1, .scalar "RFactor" 1,
+          .scalar "ExtRFactor" 1, .scalar "MOSLQ" 1, .scalar "MOSCQ" 1, .scalar "RXConfig" 1, .skip 1,
+          .scalar "JBNominal" 2, .scalar "JBMaximum" 2, .scalar "JBAbsMax" 2]
+  | _ => [.scalar "BlockType" 1, .scalar "TypeSpecific" 1, .scalar "BlockLength" 2, .sliceOf "Bytes" [1]]
+
+/-- re-proved against the struct declarations of the current source on every run -/
+theorem layouts_rfc : ∀ k, k ≤ 7 → (layoutOf k).items = rfcLayout k ∧ (layoutOf k).untied = false := by decide
+
+theorem layout_unknown : ∀ k, 7 < k → (layoutOf k).items = rfcLayout 0 := by
+  intro k hk
+  unfold layoutOf
+  split <;> first | omega | rfl
+
+theorem header_layout_rfc : layoutXRHeader.items = [.scalar "BlockType" 1, .scalar "TypeSpecific" 1, .scalar "BlockLength" 2] := rfl
+
+/-! ### one block -/
+
+/-- the `encoding:"omit"` fields hold what the type-specific octet can carry -/
+def omitsOK (b : XRBlock) : Prop :=
+  match b.kind with
+  | 1 | 2 | 3 => ∃ t, b.omits = [t] ∧ t < 16
+  | 6 => ∃ l d j toh, b.omits = [l, d, j, toh] ∧ l ≤ 1 ∧ d ≤ 1 ∧ j ≤ 1 ∧ toh < 4
+  | _ => b.omits = []
+
+/-- well-formed block: registered kind (or opaque with an unregistered type), fields in range, word aligned -/
+structure BlockWF (b : XRBlock) : Prop where
+  kind : b.kind ≤ 7
+  shape : itemsOK (layoutOf b.kind).items b.setup.scalars b.elems
+  omits : omitsOK b
+  aligned : b.wireSize % 4 = 0
+  fits : b.wireSize ≤ 262144
+  unknownType : b.kind = 0 → ¬ (1 ≤ b.bt ∧ b.bt ≤ 7)
+
+def blockBytes (b : XRBlock) : Bytes := itemsBytesL (layoutOf b.kind).items b.setup.scalars b.elems
+
+theorem block_enc (b : XRBlock) (h : BlockWF b) : b.setup.enc = .ok (blockBytes b) ∧ (blockBytes b).length = b.wireSize := by
+  have hk : b.setup.kind = b.kind := rfl
+  have he : b.setup.elems = b.elems := rfl
+  constructor
+  · unfold XRBlock.enc
+    rw [hk, he]
+    have : b.setup.scalars = b.setup.scalars := rfl
+    exact writeItems_ok _ _ _ h.shape
+  · exact itemsBytesL_length _ _ _ h.shape
+
+/-- every layout starts with the three XRHeader scalars -/
+theorem layout_hdr (k : Nat) : ∃ n1 n2 n3 rest, (layoutOf k).items = .scalar n1 1 :: .scalar n2 1 :: .scalar n3 2 :: rest := by
+  unfold layoutOf
+  split <;> exact ⟨_, _, _, _, rfl⟩
+
+theorem wireSize_ge4 (b : XRBlock) : 4 ≤ b.wireSize := by
+  obtain ⟨n1, n2, n3, rest, hl⟩ := layout_hdr b.kind
+  simp [XRBlock.wireSize, hl, sizeItems]; omega
+
+/-- **block header**: the first four octets of a marshalled block are its registered block type, the type-specific
+octet in RFC 3611's bit positions, and `size/4 − 1` -/
+theorem block_header (b : XRBlock) (h : BlockWF b) :
+    ∃ body, (blockBytes b) = [byte b.setupBt, byte b.setupTs] ++ be16 (b.wireSize / 4 - 1) ++ body := by
+  obtain ⟨n1, n2, n3, rest, hl⟩ := layout_hdr b.kind
+  have h4 := wireSize_ge4 b
+  have hbl : (b.wireSize / 4 + 65535) % 65536 = b.wireSize / 4 - 1 := by have := h.fits; omega
+  refine ⟨itemsBytesL rest b.vals b.elems, ?_⟩
+  simp [blockBytes, hl, XRBlock.scalars, XRBlock.setup, itemsBytesL, writeScalar, hbl]
+
+/-- type-specific bits: thinning T in the low nibble; L/D/J flags at 0x80/0x40/0x20 and the TTL/hop-limit kind at bits 3–4 -/
+theorem type_specific_bits (b : XRBlock) :
+    (b.kind = 1 ∨ b.kind = 2 ∨ b.kind = 3 → b.setupTs = b.omits.headD 0 % 16) ∧
+    (b.kind = 6 → b.setupTs = (if b.omits.getD 0 0 ≠ 0 then 128 else 0) + (if b.omits.getD 1 0 ≠ 0 then 64 else 0) +
+                               (if b.omits.getD 2 0 ≠ 0 then 32 else 0) + (b.omits.getD 3 0 % 4) * 8) ∧
+    (b.kind = 4 ∨ b.kind = 5 ∨ b.kind = 7 → b.setupTs = 0) := by
+  refine ⟨?_, ?_, ?_⟩
+  · rintro (h | h | h) <;> simp [XRBlock.setupTs, h]
+  · intro h; simp [XRBlock.setupTs, h]
+  · rintro (h | h | h) <;> simp [XRBlock.setupTs, h]
+
+theorem take_of_length_eq {a b : Bytes} {n : Nat} (h : a.length = n) : (a ++ b).take n = a := by
+  subst h; exact List.take_left
+
+/-- **a block decodes from the front of any buffer, independently of what follows it**, to the Go type of its
+block type, and hands the rest on untouched -/
+theorem block_roundtrip (b : XRBlock) (rest : Bytes) (h : BlockWF b) :
+    xrDecBlock ((blockBytes b) ++ rest) = .ok (b.setup, rest) := by
+  obtain ⟨body, hb⟩ := block_header b h
+  have ⟨_, hlen⟩ := block_enc b h
+  have h4 := wireSize_ge4 b
+  have hfits := h.fits
+  have hal := h.aligned
+  have hbl : b.wireSize / 4 - 1 < 65536 := by omega
+  have hbt : b.setupBt < 256 ∧ b.setupTs < 256 ∧ xrKindOfType b.setupBt = b.kind := by
+    have hsh := h.shape
+    obtain ⟨n1, n2, n3, rest', hl⟩ := layout_hdr b.kind
+    rw [hl] at hsh
+    simp only [XRBlock.scalars, XRBlock.setup, List.cons_append, List.nil_append, itemsOK, fits] at hsh
+    refine ⟨by omega, by omega, ?_⟩
+    unfold xrKindOfType XRBlock.setupBt
+    by_cases hk : 1 ≤ b.kind ∧ b.kind ≤ 7
+    · simp [hk]
+    · have hk0 : b.kind = 0 := by have := h.kind; omega
+      have := h.unknownType hk0
+      simp [hk0, this]
+  unfold xrDecBlock
+  -- the header peek
+  have hpeek : readItems layoutXRHeader.items ((blockBytes b) ++ rest) = .ok ([b.setupBt, b.setupTs, b.wireSize / 4 - 1], [], body ++ rest) := by
+    rw [hb]
+    simp only [layoutXRHeader, readItems, List.append_assoc]
+    simp [getScalar, get8, get16, be16, byte]
+    rw [if_neg (by omega)]
+    simp only [bind_ok]
+    have e1 : b.setupBt % 256 = b.setupBt := by omega
+    have e2 : b.setupTs % 256 = b.setupTs := by omega
+    have e3 : (b.wireSize / 4 - 1) / 256 % 256 * 256 + (b.wireSize / 4 - 1) % 256 = b.wireSize / 4 - 1 := by omega
+    rw [e1, e2, e3]
+  rw [hpeek, bind_ok]
+  dsimp only
+  rw [hbt.2.2]
+  have hsize : (b.wireSize / 4 - 1 + 1) * 4 = b.wireSize := by omega
+  rw [hsize, if_neg (by simp [hlen])]
+  rw [take_of_length_eq hlen, drop_of_length_eq hlen]
+  have hrd := readItems_bytes _ _ _ h.shape
+  show (readItems (layoutOf b.kind).items (blockBytes b) >>= _) = _
+  unfold blockBytes
+  rw [hrd, bind_ok]
+  simp only [XRBlock.scalars, XRBlock.setup, List.cons_append, List.nil_append]
+  -- unpack recovers the omitted fields from the type-specific octet
+  have hom := h.omits
+  unfold omitsOK at hom
+  have hkind := h.kind
+  have hcases : b.kind = 0 ∨ b.kind = 1 ∨ b.kind = 2 ∨ b.kind = 3 ∨ b.kind = 4 ∨ b.kind = 5 ∨ b.kind = 6 ∨ b.kind = 7 := by omega
+  congr 2
+  rcases hcases with hk | hk | hk | hk | hk | hk | hk | hk <;> simp only [hk] at hom
+  · cases b; simp_all [XRBlock.unpack, xrFreshOmits, XRBlock.setupTs, XRBlock.setupBt]
+  · obtain ⟨t, ht, htl⟩ := hom; cases b; simp_all [XRBlock.unpack, xrFreshOmits, XRBlock.setupTs, XRBlock.setupBt] <;> omega
+  · obtain ⟨t, ht, htl⟩ := hom; cases b; simp_all [XRBlock.unpack, xrFreshOmits, XRBlock.setupTs, XRBlock.setupBt] <;> omega
+  · obtain ⟨t, ht, htl⟩ := hom; cases b; simp_all [XRBlock.unpack, xrFreshOmits, XRBlock.setupTs, XRBlock.setupBt] <;> omega
+  · cases b; simp_all [XRBlock.unpack, xrFreshOmits, XRBlock.setupTs, XRBlock.setupBt]
+  · cases b; simp_all [XRBlock.unpack, xrFreshOmits, XRBlock.setupTs, XRBlock.setupBt]
+  · obtain ⟨l, d, j, toh, ho, h1, h2, h3, h4'⟩ := hom
+    cases b; simp_all [XRBlock.unpack, xrFreshOmits, XRBlock.setupTs, XRBlock.setupBt]
+    refine ⟨?_, ?_, ?_, ?_⟩ <;> (split <;> split <;> split <;> omega)
+  · cases b; simp_all [XRBlock.unpack, xrFreshOmits, XRBlock.setupTs, XRBlock.setupBt]
+
+/-! ### sequences of blocks, the whole packet -/
+
+def blocksBytes (bs : List XRBlock) : Bytes := (bs.map blockBytes).flatten
+
+theorem encXRBlocks_ok (bs : List XRBlock) (h : ∀ b ∈ bs, BlockWF b) : encXRBlocks (bs.map XRBlock.setup) = .ok (blocksBytes bs) := by
+  induction bs with
+  | nil => rfl
+  | cons b bs ih =>
+    simp only [List.map_cons, encXRBlocks, (block_enc b (h b (by simp))).1, bind_ok, ih (fun x hx => h x (by simp [hx]))]
+    simp [blocksBytes]
+
+theorem blocksBytes_length (bs : List XRBlock) (h : ∀ b ∈ bs, BlockWF b) : (blocksBytes bs).length = (bs.map XRBlock.wireSize).sum := by
+  induction bs with
+  | nil => rfl
+  | cons b bs ih =>
+    have := ih (fun x hx => h x (by simp [hx]))
+    simp [blocksBytes] at this ⊢
+    rw [(block_enc b (h b (by simp))).2, this]
+
+/-- **blocks decode in order and independently of their neighbours**, each to the Go type of its block type -/
+theorem blocks_in_order (bs : List XRBlock) (gas : Nat) (hg : bs.length < gas) (h : ∀ b ∈ bs, BlockWF b) :
+    xrDecBlocksP gas (blocksBytes bs) = (bs.map XRBlock.setup, .ok) := by
+  induction bs generalizing gas with
+  | nil =>
+    cases gas with
+    | zero => omega
+    | succ g => simp [xrDecBlocksP, blocksBytes]
+  | cons b bs ih =>
+    cases gas with
+    | zero => omega
+    | succ g =>
+      rw [xrDecBlocksP]
+      have hb : blocksBytes (b :: bs) = blockBytes b ++ blocksBytes bs := by simp [blocksBytes]
+      have h4 := wireSize_ge4 b
+      have hl := (block_enc b (h b (by simp))).2
+      rw [hb, if_neg (by rw [List.length_append, hl]; omega), block_roundtrip b _ (h b (by simp))]
+      dsimp only
+      rw [ih g (by simp at hg; omega) (fun x hx => h x (by simp [hx]))]
+      rfl
+
+/-- the block kind is a function of the block type octet alone: 1..7 the defined structs, everything else opaque -/
+theorem block_kind_of_type (bt : Nat) : xrKindOfType bt = (if 1 ≤ bt ∧ bt ≤ 7 then bt else 0) := rfl
+
+/-- **unknown blocks survive**: an opaque block keeps its type, its type-specific octet and its content through
+Marshal (only the block length is recomputed) -/
+theorem unknown_verbatim (b : XRBlock) (hk : b.kind = 0) :
+    b.setup.bt = b.bt ∧ b.setup.ts = b.ts ∧ b.setup.elems = b.elems ∧ b.setup.kind = 0 := by
+  simp [XRBlock.setup, XRBlock.setupBt, XRBlock.setupTs, hk]
+
+/-- **ExtendedReport round trip**: decoding what Marshal emitted gives the packet in its post-Marshal state
+(block headers filled in), blocks in order -/
+theorem xr_roundtrip (x : XR) (hs : x.sender < 4294967296) (h : ∀ b ∈ x.blocks, BlockWF b) (hfit : x.wireSize ≤ 262140) :
+    ∃ bytes, x.enc = .ok (bytes, { x with blocks := x.blocks.map XRBlock.setup }) ∧
+      XR.dec bytes = .ok { x with blocks := x.blocks.map XRBlock.setup } ∧ bytes.length = x.marshalSize := by
+  have hws : ({ x with blocks := x.blocks.map XRBlock.setup } : XR).wireSize = x.wireSize := by
+    simp only [XR.wireSize, List.map_map]
+    congr 2
+  have hal : (x.blocks.map XRBlock.wireSize).sum % 4 = 0 := by
+    have : ∀ bs : List XRBlock, (∀ b ∈ bs, BlockWF b) → (bs.map XRBlock.wireSize).sum % 4 = 0 := by
+      intro bs
+      induction bs with
+      | nil => intro _; rfl
+      | cons b bs ih =>
+        intro hb
+        have h1 := (hb b (by simp)).aligned
+        have h2 := ih (fun y hy => hb y (by simp [hy]))
+        simp; omega
+    exact this x.blocks h
+  have hwsz : x.wireSize = 4 + (x.blocks.map XRBlock.wireSize).sum := rfl
+  let hdr : Header := { type := TypeExtendedReport, length := (x.wireSize / 4) % 65536 }
+  refine ⟨hdr.bytes ++ be32 x.sender ++ blocksBytes x.blocks, ?_, ?_, ?_⟩
+  · unfold XR.enc
+    dsimp only
+    rw [hws, Header.enc_ok _ (by simp), bind_ok, encXRBlocks_ok x.blocks h, bind_ok]
+    rfl
+  · unfold XR.dec
+    have hP : XR.decP (hdr.bytes ++ be32 x.sender ++ blocksBytes x.blocks) = ({ x with blocks := x.blocks.map XRBlock.setup }, .ok) := by
+      unfold XR.decP
+      rw [List.append_assoc, Header.dec_bytes hdr _ (by simp [hdr]) (by simp [hdr]) (by show x.wireSize / 4 % 65536 < 65536; omega)]
+      dsimp only
+      rw [if_neg (by simp [hdr])]
+      have hd : (hdr.bytes ++ (be32 x.sender ++ blocksBytes x.blocks)).drop headerLength = be32 x.sender ++ blocksBytes x.blocks :=
+        drop_of_length_eq (by simp)
+      rw [hd, if_neg (by simp)]
+      have hd2 : (be32 x.sender ++ blocksBytes x.blocks).drop 4 = blocksBytes x.blocks := drop_of_length_eq (by simp)
+      have hbl := blocksBytes_length x.blocks h
+      have hge : x.blocks.length * 4 ≤ (x.blocks.map XRBlock.wireSize).sum := by
+        have : ∀ bs : List XRBlock, bs.length * 4 ≤ (bs.map XRBlock.wireSize).sum := by
+          intro bs
+          induction bs with
+          | nil => simp
+          | cons b bs ih => have := wireSize_ge4 b; simp; omega
+        exact this _
+      rw [hd2, blocks_in_order x.blocks _ (by simp [hbl]; omega) h]
+      have hg : get32 (be32 x.sender ++ blocksBytes x.blocks) 0 = x.sender := get32_be32 _ _ hs
+      rw [hg]
+    rw [hP]; rfl
+  · simp [blocksBytes_length x.blocks h, XR.marshalSize, hwsz]
+
+/-- non-vacuity: a DLRR block with two sub-reports and an opaque block of type 200 are well formed -/
+example : BlockWF { kind := 5, elems := [[1, 2, 3], [4, 5, 6]] } :=
+  ⟨by decide, by simp [itemsOK, layoutOf, layout5, XRBlock.scalars, XRBlock.setup, XRBlock.setupBt, XRBlock.setupTs,
+      XRBlock.wireSize, sizeItems, elemSize, widthOK, fits, elemOK], by simp [omitsOK], by decide, by decide, by decide⟩
+example : BlockWF { kind := 0, bt := 200, ts := 7, elems := [[1], [2], [3], [4]] } :=
+  ⟨by decide, by simp [itemsOK, layoutOf, layout0, XRBlock.scalars, XRBlock.setup, XRBlock.setupBt, XRBlock.setupTs,
+      XRBlock.wireSize, sizeItems, elemSize, widthOK, fits, elemOK], by simp [omitsOK], by decide, by decide, by decide⟩
+
 end Rtcp.C15
